@@ -29,7 +29,7 @@ const M3_NAME: &str = "org.apache.cassandra.dht.Murmur3Partitioner";
 const UNK_NAME: &str = "org.example.dht.FooPartitioner";
 
 pub fn generate(rng: &mut Rng, tier: Tier, emit: &mut dyn FnMut(String)) {
-    let n = if tier == Tier::Quick { 6 } else { 40 };
+    let n = if tier == Tier::Quick { 12 } else { 60 };
     for i in 0..n {
         emit(format!("e2e partitioner schema={} seed={}", if i % 3 == 2 { 0 } else { 1 }, rng.below(1 << 32)));
     }
